@@ -335,11 +335,42 @@ static void frequent_query_scenario(Rng& r) {
   count("frequent_query_scenarios");
 }
 
+
+// tiny total weight in a digest of large k (k >= 404: the scale-function normalizer changes sign when the total
+// weight is below k/202): shards of 1..24 values merged into an empty / tiny aggregator, extremes first or last
+template<typename T>
+static void tiny_weight_large_k_scenario(Rng& r) {
+  const uint16_t k = uint16_t(r.pick({404, 500, 1000, 2000, 5000, 20000, 65535}));
+  const int nshards = int(r.range(2, 6));
+  describe(std::string("tiny-weight large-k ") + tname<T>() + " k=" + std::to_string(k) + " shards=" + std::to_string(nshards));
+  tdigest<T> agg(k); Model<T> ma;
+  if (r.chance(0.3)) { const T v = T(r.unit() * 10 - 5); agg.update(v); ma.add(v); }
+  for (int sh = 0; sh < nshards; ++sh) {
+    const uint16_t ks = r.coin() ? k : uint16_t(r.range(10, 2000));
+    tdigest<T> s(ks); Model<T> ms;
+    const int cnt = int(r.range(1, sh == 0 ? 4 : 24));
+    for (int i = 0; i < cnt; ++i) {
+      T v;
+      if (sh == 0 && i < 3) v = T(i == 0 ? -100 : (i == 1 ? 0 : 100));      // extremes arrive with the first shard
+      else v = T((r.unit() - 0.5) * (r.coin() ? 100 : 400));                 // inner or outer values later
+      s.update(v); ms.add(v);
+    }
+    if (r.chance(0.3)) s.compress();
+    agg.merge(s); ma.merge(ms);
+    observe(agg, ma, r, "merge of a tiny shard into a tiny large-k aggregator", k);
+    if (r.chance(0.3)) { const T v = T((r.unit() - 0.5) * 50); agg.update(v); ma.add(v); }
+  }
+  agg.compress();
+  observe(agg, ma, r, "compress of a tiny large-k aggregator", k);
+  count("tiny_weight_large_k_scenarios");
+}
+
 void run_case(uint64_t idx, Rng& r) {
+  if (idx % 10 == 5) { if (r.coin()) tiny_weight_large_k_scenario<double>(r); else tiny_weight_large_k_scenario<float>(r); return; }
   if (idx % 10 == 7) { if (r.coin()) frequent_query_scenario<double>(r); else frequent_query_scenario<float>(r); return; }
   if (idx % 10 == 3) { if (r.coin()) empty_target_scenario<double>(r); else empty_target_scenario<float>(r); return; }
   if (idx % 100 == 31) { if (r.coin()) accuracy_cell<double>(r); else accuracy_cell<float>(r); return; }
-  if (idx % 400 == 75) { shipped<double>(r, "tdigest_ref_k100_n10000_double.sk"); shipped<float>(r, "tdigest_ref_k100_n10000_float.sk"); return; }
+  if (idx % 400 == 76) { shipped<double>(r, "tdigest_ref_k100_n10000_double.sk"); shipped<float>(r, "tdigest_ref_k100_n10000_float.sk"); return; }
   if (r.coin()) program<double>(r); else program<float>(r);
 }
 
